@@ -1,6 +1,7 @@
 import ClusterVerif.Spec.C08
 import ClusterVerif.Gen.C08
 import Driver.Parse
+import Driver.C08Wire
 /-! C08 driver: parses the case lines of harness/c08 (suites rt, eq, str, fuzz), applies the Spec
 clauses to the implementation's output, then compares that output with the model's prediction.
 Core Lean only. -/
@@ -301,6 +302,10 @@ def answer (ws : List String) : String :=
   | "eq" :: rest => answerEq rest
   | "str" :: rest => answerStr rest
   | "fuzz" :: rest => answerFuzz rest
+  | "pbenc" :: rest => answerWire "pbenc" rest
+  | "pbdec" :: rest => answerWire "pbdec" rest
+  | "qesc" :: rest => answerWire "qesc" rest
+  | "qparse" :: rest => answerWire "qparse" rest
   | _ => "bad-case unknown-suite"
 
 end CV.C08
